@@ -492,12 +492,52 @@ func (w *Worktree) Reset(opts *ResetOptions) error {
 	}
 
 	if opts.Mode == HardReset || opts.Mode == KeepReset {
-		if err := w.resetWorktreeToTree(cfg, prevTree, t, opts.Files); err != nil {
+		files := opts.Files
+		if opts.Mode == KeepReset && len(opts.SparseDirs) == 0 {
+			// --keep only rewrites the paths that differ between the old and
+			// the new commit: local changes to any other path are kept.
+			if files, err = keepResetPaths(prevTree, t, opts.Files); err != nil {
+				return err
+			}
+
+			if len(files) == 0 {
+				return nil
+			}
+		}
+
+		if err := w.resetWorktreeToTree(cfg, prevTree, t, files); err != nil {
 			return err
 		}
 	}
 
 	return nil
+}
+
+// keepResetPaths returns the paths that differ between fromTree and toTree,
+// restricted to files when it is not empty.
+func keepResetPaths(fromTree, toTree *object.Tree, files []string) ([]string, error) {
+	changes, err := diffTrees(fromTree, toTree)
+	if err != nil {
+		return nil, err
+	}
+
+	filesMap := buildFilePathMap(files)
+	paths := make([]string, 0, len(changes))
+	add := func(name string) {
+		if len(files) == 0 || inFiles(filesMap, name) {
+			paths = append(paths, name)
+		}
+	}
+	for _, ch := range changes {
+		if ch.From != nil {
+			add(ch.From.String())
+		}
+		if ch.To != nil {
+			add(ch.To.String())
+		}
+	}
+
+	return paths, nil
 }
 
 // treeContainsDirs checks if the given tree contains all the directories.
